@@ -4,7 +4,7 @@ H = vf.VERIF + "/checks/C10/harness.cpp"
 SCHED = [vf.VERIF + "/engine/sched/sched.cpp", vf.VERIF + "/engine/sched/log_stub.cpp"]
 # (buff_size, min, max, pattern, threads)   patterns 0,1: one producer (3 threads); 2,3: two producers (4 threads); 4: three producers
 CFG1 = [(1,1,1,0),(1,1,2,0),(2,1,1,0),(2,1,2,1),(2,2,3,0),(4,1,2,1),(1,1,1,1)]
-CFG2 = [(1,1,1,2),(2,1,2,2),(2,1,1,3),(2,2,3,3),(4,1,2,3)]
+CFG2 = [(1,1,1,2),(2,1,2,2),(2,1,1,3),(2,2,3,3),(4,1,2,3),(2,1,2,5),(1,1,1,5)]
 CFG3 = [(2,1,2,4)]
 def cmds(exe, cfgs, bound, tagp, only):
     c = [("%s:b%d_%d_%d_p%d" % ((tagp,) + s), [exe] + [str(x) for x in s] + [str(bound)]) for s in cfgs]
